@@ -14,12 +14,14 @@ Kinds == {"F", "S", "O", "P", "R", "N", "Pl", "Rl"}     \* Pl / Rl: completes on
 VARIABLES plan, timeo, idx, open, closed, state, result, ncb, cancelAt, steps
 vars == <<plan, timeo, idx, open, closed, state, result, ncb, cancelAt, steps>>
 Plans == UNION {[1..n -> Kinds] : n \in 0..MAXADDR}
-Init == /\ plan \in Plans /\ timeo \in BOOLEAN /\ idx = 1 /\ open = {} /\ closed = {} /\ state = "trying" /\ result = -2 /\ ncb = 0
+\* the per-address timeout: none, short (P / R complete within it, Pl / Rl do not), or zero (nothing in progress completes within it)
+Init == /\ plan \in Plans /\ timeo \in {"none", "short", "zero"} /\ idx = 1 /\ open = {} /\ closed = {} /\ state = "trying" /\ result = -2 /\ ncb = 0
         /\ cancelAt \in 0..MAXADDR + 1 /\ steps = 0
 \* outcome of the attempt on address i
-Fails(i) == plan[i] \in {"F", "S", "R"} \/ (timeo /\ plan[i] \in {"N", "Pl", "Rl"}) \/ (~timeo /\ plan[i] = "Rl")
-Connects(i) == plan[i] \in {"O", "P"} \/ (~timeo /\ plan[i] = "Pl")
-Hangs(i) == ~timeo /\ plan[i] = "N"
+HasT == timeo # "none"
+Fails(i) == plan[i] \in {"F", "S", "R", "Rl"} \/ (HasT /\ plan[i] \in {"N", "Pl"}) \/ (timeo = "zero" /\ plan[i] = "P")
+Connects(i) == plan[i] = "O" \/ (plan[i] = "P" /\ timeo # "zero") \/ (~HasT /\ plan[i] = "Pl")
+Hangs(i) == ~HasT /\ plan[i] = "N"
 Try == /\ state = "trying" /\ steps + 1 # cancelAt
        /\ steps' = steps + 1
        /\ IF idx > Len(plan) THEN state' = "done" /\ result' = -1 /\ ncb' = ncb + 1 /\ UNCHANGED <<idx, open, closed>>   \* none connected
